@@ -138,7 +138,7 @@ inline std::string tmutate(const TArt &a, int c, size_t v, vf::Rng &r, const std
 		case 1: f[i].txt = std::string(4097, 'z'); break;            // just above
 		case 2: f[i].txt = std::string(70000, '9'); break;
 		case 3: f[i].txt = "-" + std::string(20000, 'Z'); break;
-		default: f[i].txt = std::string(1 << 20, 'A'); break;         // 1 MiB
+		default: f[i].txt = std::string(1 << 18, 'A'); break;         // 256 KiB
 		}
 		return tjoin(f);
 	}
